@@ -49,6 +49,21 @@ def gen_cases(tier, seed):
                        # counts as they come out of a counting process: integer element types; a guess near the generating model
                        "store": [None, None, "int64", "int32", "uint8", None][int(rng.integers(0, 6))], "good_guess": bool(rng.integers(0, 3) == 0),
                        "cseed": int(seed) * 67867967 + next(cs)}
+    yield from _gen_overfit(tier, seed, cs)
+
+
+def _gen_overfit(tier, seed, cs):
+    # more components than the data supports: projected (quasi-)Newton steps drive whole columns of some component to zero in one mode
+    # while the others are still alive -- the reported objective must still be the log-likelihood of the model as returned
+    rng = gen.rng_for(seed + 3, ID, tier)
+    for i in range(90 if tier == "quick" else 500):
+        N = int(rng.integers(2, 4))
+        shape = [int(s) for s in rng.integers(2, 6, size=N)]
+        for alg in ("pdnr", "pqnr"):
+            yield {"w": "apr", "alg": alg, "rep": ["dense", "sparse"][i % 2], "shape": shape, "R": int(rng.integers(2, 4)), "Rtrue": 1, "dseed": int(rng.integers(0, 2 ** 31)),
+                   "empty_slice": False, "zero_row": False, "maxinneriters": int(rng.choice([3, 10, 20])), "stoptol": 1e-8, "precompinds": bool(rng.integers(0, 2)),
+                   "inexact": bool(rng.integers(0, 2)), "lbfgsMem": 3, "kappa": 0.01, "printitn": 0, "stoptime": None, "store": None, "good_guess": False,
+                   "cseed": int(seed) * 67867967 + 100000 + next(cs)}
 
 
 def _quiet(f, *a, **k):
@@ -70,7 +85,8 @@ def run_case(case, ctx):
     rng = np.random.default_rng(case["dseed"])
     shape = tuple(case["shape"])
     N, R = len(shape), case["R"]
-    Ktrue = ttb.ktensor([rng.random((s, R)) for s in shape], rng.random(R) * 5 + 1)
+    Rt_ = case.get("Rtrue", R)
+    Ktrue = ttb.ktensor([rng.random((s, Rt_)) for s in shape], rng.random(Rt_) * 5 + 1)
     X = rng.poisson(denote(Ktrue)).astype(float)
     if case["empty_slice"]:
         X[(0,) * N] = 0
@@ -91,7 +107,7 @@ def run_case(case, ctx):
     if rep == "sparse":
         nnz = int(np.count_nonzero(X))
         D = gen.mk_sptensor(ttb, X if not store else X.astype(store), gen.stored_order(rng, nnz, "shuffled"), dtype=(np.dtype(store) if store else None))
-    ctx.feat(store=str(store), good_guess=bool(case.get("good_guess")))
+    ctx.feat(store=str(store), good_guess=bool(case.get("good_guess")), overfit=bool(case.get("Rtrue")))
     ddig = state_digest(D)
     ctx.feat(alg=alg, rep=rep, zero_row=case["zero_row"], empty_slice=case["empty_slice"], R=R, N=N, precompinds=case["precompinds"],
              inexact=case["inexact"], lbfgsMem=case["lbfgsMem"], maxinneriters=case["maxinneriters"])
